@@ -399,6 +399,8 @@ Proof.
     split; [apply (layout_dat b); [now symmetry|exact Hlay]|]. split.
     + apply (hint_acc_transfer b); [exact Hs|apply log_le_dat; now symmetry|exact Hacc].
     + apply prov_weaken. intros q r Hq. apply (Hprov q r). now rewrite (log_find_dat b bb q (eq_sym Hd)).
+  - (* index lookup *)
+    cbn [fst]. intros E; injection E as <-. split; [exact Hlay|]. split; [exact Hacc|now apply prov_weaken].
   - (* flush *)
     cbn [fst]. intros E; injection E as <-. split; [now apply flush_head_layout|]. split.
     + apply (hint_acc_transfer b); [apply flush_head_hside|intros q r Hq; now rewrite flush_head_log|exact Hacc].
